@@ -1,7 +1,7 @@
 \* two indexes x two attempts, AllSuccessful, lagging caches, API faults, kill two ticks ahead
 CONSTANTS N = 2 MaxAtt = 2 Delay = 1 Strategy = "AllSuccessful" PT = 2 FD = 2 TTL = 2 Forbid = FALSE Foreign = FALSE MaxTime = 8 MaxEvq = 3 MaxFaults = 2 MaxCrash = 0 Fresh = FALSE KillDelays = {2, 3} KillEdits = {99, 1, 3} UserDeletes = FALSE ExtDeletes = FALSE NodeDowns = FALSE
  Rejects = FALSE
- Holds = FALSE Invalids = FALSE D = 48
+ Holds = FALSE Invalids = FALSE WatchBreaks = FALSE D = 48
 SPECIFICATION SSpec
 INVARIANT EmitDone
 CHECK_DEADLOCK FALSE
